@@ -88,3 +88,31 @@ func ValidateEmptyBehaviorAnnotation(field *protogen.Field, messageName string) 
 
 	return nil
 }
+
+// EmptyMessageJSON returns the protojson form of the empty value of a message field's type.
+// It is "{}" for ordinary messages; well-known types whose JSON form is not an object
+// (Timestamp, Duration, FieldMask, the wrappers, ListValue) have their own spelling, and
+// protojson rejects "{}" for them.
+func EmptyMessageJSON(field *protogen.Field) string {
+	if field == nil || field.Message == nil {
+		return "{}"
+	}
+	switch field.Message.Desc.FullName() {
+	case "google.protobuf.Timestamp":
+		return `"1970-01-01T00:00:00Z"`
+	case "google.protobuf.Duration":
+		return `"0s"`
+	case "google.protobuf.FieldMask", "google.protobuf.StringValue", "google.protobuf.BytesValue":
+		return `""`
+	case "google.protobuf.BoolValue":
+		return "false"
+	case "google.protobuf.Int32Value", "google.protobuf.UInt32Value", "google.protobuf.FloatValue", "google.protobuf.DoubleValue":
+		return "0"
+	case "google.protobuf.Int64Value", "google.protobuf.UInt64Value":
+		return `"0"`
+	case "google.protobuf.ListValue":
+		return "[]"
+	default:
+		return "{}"
+	}
+}
